@@ -69,7 +69,10 @@ TIED_THROUGH = {
     "PatcherProg": {"C01", "C02", "C04", "C05", "C06", "C18"},
     "xl_main": {"C02", "C13", "C14", "C15"},
     "xl_main.flags": {"C09", "C10", "C14"},      # the WS_TEXT branch of XMLFormatter._make_diff_tags (text normalisation)
-    "xl_state": {"C01", "C03", "C05", "C06", "C07", "C13", "C17"},
+    # only C06's theorems are stated over Gen/StateShape (DifferState*.v); the differ properties C01, C03, C05, C07,
+    # C13, C17 are tied to Differ.match / Differ.diff by the exact correspondence of matching and script and by the
+    # comparison with main.diff_trees, so a behaviour-preserving rewrite of the state handling does not break THEIR tie
+    "xl_state": {"C06"},
 }
 LAST_TRANSLATION = {"failed": {}}
 
